@@ -2691,10 +2691,8 @@ def loadtxt(fname, dtype="float", delimiter="\t", usecols=None, comments="#"):
         converters=None,
         unpack=True,
         usecols=usecols,
-        ndmin=0,
+        ndmin=2,
     )
-    if len(arrays.shape) < 2:
-        arrays = [arrays]
     if usecols is not None:
         units = [units[col] for col in usecols]
     ret = tuple(unyt_array(arr, unit) for arr, unit in zip(arrays, units))
